@@ -181,6 +181,7 @@ def run(ctx):
         if inv != "Inv_Cell" and r.trace:
             ctx.log("counterexample", devs, "->", " ".join(r.trace[-1].split())[:260])
 
+    ctx.log(f"theorem + sensitivity runs done ({time.time() - t0:.0f}s)")
     # ---- 2. templates per hint shape of the running code
     tpl_widths = [(2, 1, 1), (1, 2, 1), (1, 1, 2)] if ctx.thorough else [(1, 1, 2)]
     templates = {k: {} for k in shapes}
@@ -300,6 +301,7 @@ def run(ctx):
     if pending:
         ctx.log(f"{sum(len(x) for x in pending)} events left unvalidated after {nviol} violations")
 
+    ctx.log(f"batched validation done ({time.time() - t0:.0f}s)")
     # 4b. events holding a dict with a marker key: one trace each; law first, as-built model second
     st = [_trace(f"s{i}", [e], schema) for i, e in enumerate(suspects)]
     oks, d1, g1, w1 = _fast_validate("SerialTrace", law_cfg, st, ctx.scratch)
@@ -316,6 +318,7 @@ def run(ctx):
                         f"the domain of {KF}", case=_strip(e) if e.get("_nodes", 0) < 400 else {"cls": e["cls"]},
                         where=where(e))
 
+    ctx.log(f"single-event validation done: {len(st)} traces, {len(rej)} rejected by the law ({time.time() - t0:.0f}s)")
     # ---- evidence
     ev.replayed(len(allev))
     for e in allev:
